@@ -100,7 +100,7 @@ def check(ctx):
     ctx.ob("DELEG.sample.all-when-short", sr, "without replacement and k > n: everything seen so far is kept", ok)
     for fn, inner, rep in (("sample", "_sample", False), ("choices", "_sample_with_replacement", True)):
         f = mod.func(fn)
-        ok = bool(find(f"res = {inner}(population=population, k=k, split_every=split_every)", f)) and any(Pat("res.map_partitions(_finalize_sample, k)").match(r.value) is not None for r in returns(f))
+        ok = bool(find(f"res = {inner}(population=population, k=k, split_every=split_every)", f)) and (all(Pat("res.map_partitions(_finalize_sample, k)").match(r.value) is not None for r in returns(f)) and bool(returns(f)))
         ctx.ob("DELEG.sample.entry", f, f"{fn}: {inner}(population, k, split_every) then _finalize_sample with the same k", ok)
         g_ = mod.func(inner)
         cs = [c for c in calls(g_, "reduction")]
